@@ -12,7 +12,7 @@ CASE_TYPE = "C13_case"
 HARNESS = "c13"
 KNOWN = {1: "C13-u16-param-length", 2: "C13-length-limited-max"}
 RULE = ("cases are (a) announced values of the four discovery types, encoded and fed to the real from_bytes, "
-        "(b) structure-aware mutations of such encodings (unknown/vendor pids inserted, truncated or odd length "
+        "(a') the same values as a big-endian vendor encodes them (PL_CDR_BE), (b) structure-aware mutations of such encodings (unknown/vendor pids inserted, truncated or odd length "
         "fields, duplicated parameters, wrong enum/bool bytes, big-endian headers, cut tails), (c) calls of the real "
         "per-policy XCDR1 encoders on boundary values and (d) end-to-end SPDP announcements read back from the "
         "participant writer's history cache; distinct = distinct input line; non-trivial = the real decoder returned "
@@ -28,7 +28,9 @@ ASSUMPTIONS = ["TypeInformation (PID_TYPE_INFORMATION, XCDR2) is an abstract cod
                "C13-u16-param-length) and whose resource limits are not Limited(i32::MAX) (known finding C13-length-limited-max)",
                "the redundant fields must be consistent: remote_{writer,reader}_guid = key, guid_prefix = key[0..12], "
                "discovered_participant_list = [] (it is never transmitted)",
-               "Vec::with_capacity(wire length) of partition / representation sequences is not modelled (C07)"]
+               "Vec::with_capacity(wire length) of partition / representation sequences is not modelled (C07)",
+               "big-endian input: the iterator, unknown-pid theorem and decoders cover PL_CDR_BE; the round trip is a theorem for "
+               "the crate's own (little-endian) writer and is checked on big-endian encodings by the correspondence run only"]
 
 I32MAX, I32MIN, U32MAX = 2**31 - 1, -2**31, 2**32 - 1
 
@@ -39,7 +41,7 @@ P = dict(LEASE=2, TBF=4, TOPIC_NAME=5, OWNSTR=6, TYPE_NAME=7, DOMAIN_ID=15, PROT
          DEF_UNICAST=49, META_UNICAST=50, META_MULTICAST=51, MLC=52, HISTORY=64, RESLIMITS=65, EXPECTS_INLINE=67,
          DEF_MULTICAST=72, TRANSPRIO=73, PARTICIPANT_GUID=80, GROUP_ENTITYID=83, ENDPOINT_SET=88, ENDPOINT_GUID=90,
          DATAREP=115, TCE=116, TYPE_INFO=117, ENDPOINT_QOS=119, DOMAIN_TAG=0x4014)
-KNOWN_PIDS = set(P.values()) | {0, 1, 768}
+KNOWN_PIDS = set(P.values()) | {0, 1}
 
 # ------------------------------------------------------------------ python mirror of the encoder
 
@@ -594,8 +596,8 @@ def locs_tok(ls):
 def case_line(c):
     if c[0] == "dec":
         return "dec %s %s" % (c[1], hx(c[2]))
-    if c[0] == "rt":
-        return "dec %s %s rt %s" % (c[1], hx(c[3]), json.dumps(c[2], separators=(",", ":")))
+    if c[0] in ("rt", "rtbe"):
+        return "dec %s %s %s %s" % (c[1], hx(c[3]), c[0], json.dumps(c[2], separators=(",", ":")))
     if c[0] == "enc":
         return enc_line(c[1], c[2])
     if c[0] == "ann":
@@ -612,8 +614,8 @@ def unhx(s):
 def parse_line(line):
     t = line.split()
     if t[0] == "dec":
-        if len(t) > 3 and t[3] == "rt":
-            return ("rt", t[1], json.loads(t[4]), unhx(t[2]))
+        if len(t) > 3 and t[3] in ("rt", "rtbe"):
+            return (t[3], t[1], json.loads(t[4]), unhx(t[2]))
         return ("dec", t[1], unhx(t[2]), "replay")
     return None   # enc / ann cases are regenerated, not replayed from text
 
@@ -1006,9 +1008,10 @@ def case_term(c, out):
     if c[0] == "dec":
         o = parse_dec_out(c[1], out, None, ("d", c[2]))
         return None if o is None else "(let d := %s in mkC13 (Dec %s d) (ODec %s))" % (cbytes(c[2]), "K" + c[1].upper(), o)
-    if c[0] == "rt":
+    if c[0] in ("rt", "rtbe"):
         o = parse_dec_out(c[1], out, ("v", c[2]), ("d", c[3]))
-        return None if o is None else "(let v := %s in let d := %s in mkC13 (Rt v d) (ODec %s))" % (cvalue(c[1], c[2]), cbytes(c[3]), o)
+        return None if o is None else "(let v := %s in let d := %s in mkC13 (%s v d) (ODec %s))" % (
+            cvalue(c[1], c[2]), cbytes(c[3]), "Rt" if c[0] == "rt" else "RtBe", o)
     if c[0] == "enc":
         if not out.startswith("OK "):
             return None
@@ -1100,12 +1103,12 @@ def big_cases(r, tier):
 
 
 def has_ti_blob(b):
-    """the parameter list (as the real iterator walks it, header included) contains a non-empty
+    """the parameter list (as the real iterator walks it, from offset 4) contains a non-empty
     PID_TYPE_INFORMATION value: outside the model (abstract TypeInformation codec), not generated"""
     if len(b) < 4 or b[1] not in (2, 3):
         return False
     order = "big" if b[1] == 2 else "little"
-    i = 0
+    i = 4
     while i + 4 <= len(b):
         pid = int.from_bytes(bytes(b[i:i + 2]), order)
         ln = int.from_bytes(bytes(b[i + 2:i + 4]), order)
@@ -1127,9 +1130,13 @@ def gen(r, tier):
     while len(cases) < n:
         kind = r.choice("twrp")
         k = r.random()
-        if k < 0.45:
+        if k < 0.40:
             v = gen_value(r, kind, allow_max=r.random() < 0.03)
             cases.append(("rt", kind, v, encode(kind, v)))
+        elif k < 0.47:
+            # the same announcement as a big-endian vendor sends it
+            v = gen_value(r, kind)
+            cases.append(("rtbe", kind, v, encode_be(kind, v)))
         elif k < 0.97:
             v = gen_value(r, kind)
             tag, b = mutate(r, kind, v)
@@ -1151,14 +1158,17 @@ def corpus():
     # D17: 70000 bytes of user data; zeros re-synchronise (decoded user_data = []), sevens do not (ERR)
     cs.append(("ann", ann_value(r, [0] * 70000, tag=[], nloc=0)))
     cs.append(("ann", ann_value(r, [7] * 70000, tag=[], nloc=0)))
-    # D14: zero-length domain tag string -> `length - 1` underflow
+    # regression of fix c095065 (D14): zero-length domain tag string, was a `length - 1` underflow panic, now InvalidData
     p = gen_participant(r)
     ps = params_of("p", p)
     ps.insert(2, (P["DOMAIN_TAG"], [0, 0, 0, 0]))
     ps = [q for i, q in enumerate(ps) if not (q[0] == P["DOMAIN_TAG"] and i != 2)]
     cs.append(("dec", "p", assemble(ps), "d14"))
-    # big-endian participant: the header is taken for PID_PARTICIPANT_LEASE_DURATION (pid 2, length 0)
+    # regression of fix 0c275fa: big-endian participant; the header used to be taken for
+    # PID_PARTICIPANT_LEASE_DURATION (pid 2, length 0) -> NotEnoughData; now it decodes
     cs.append(("dec", "p", unhx("0002000000500010010203040506070809101112000001c100150004020400000016000401140000005800043000f03f00010000"), "be"))
+    pb = gen_participant(r)
+    cs.append(("rtbe", "p", pb, encode_be("p", pb)))
     # Length::Limited(i32::MAX) is announced as LENGTH_UNLIMITED
     t = gen_topic(r)
     t["resource_limits"] = [I32MAX, None, 5]
